@@ -30,6 +30,8 @@ FLAVOURS = ["serial", "tcp", "aserial", "atcp", "mqtt", "amqtt"]
 def gen(rng, tier, index):
     cfg = netgen.base_cfg(rng, FLAVOURS, persistence=["pickle"])
     cfg["force_dirty"] = True
+    if rng.random() < 0.15:
+        cfg["no_callback"] = True
     if cfg["flavour"] in ("mqtt", "amqtt"):
         cfg["in_prefix"] = rng.choice(["", "gw-out"])
         cfg["out_prefix"] = rng.choice(["", "gw-in"])
